@@ -102,7 +102,8 @@ class BranchingList:
             cases = self.branches[branch].cases
             num_true = sum([self.cases[c].value==True for c in cases])
             # only first `true` case is valid
-            if num_true!=1 or self.cases[cases[-1]].value == False:
+            # (the current case itself has to be that one: a condition that is neither true nor false selects nothing)
+            if num_true!=1 or not (self.cases[cases[-1]].value == True):
                 return True
         return False
         
